@@ -71,7 +71,7 @@ pub fn explore(ex: &Ex) {
         let slots: &[Item] = match (arity, ex.scale) {
             (_, Scale::Small) => &tiny,
             (3, _) => &full,
-            (4, Scale::Quick) => &full,
+            (4, Scale::Quick) => &small,
             (4, Scale::Thorough) => &full,
             (5, Scale::Quick) => &small,
             (5, Scale::Thorough) => &full,
@@ -86,17 +86,26 @@ pub fn explore(ex: &Ex) {
         });
     }
     // mixed alphabet for arity 4 in quick: full alphabet in the two header slots and the payload slot
-    if false {
-        // [full, full, small, small]
+    if ex.scale == Scale::Quick {
+        // [full, full, full, small] and [small, small, small, full]
         let enc_full: Vec<Vec<u8>> = full.iter().map(|s| s.det()).collect();
         let enc_small: Vec<Vec<u8>> = small.iter().map(|s| s.det()).collect();
-        ex.bound("c09.arity4mixed", "alphabets", json!([full.len(), full.len(), small.len(), small.len()]));
+        ex.bound("c09.arity4mixed", "alphabets", json!([[full.len(), full.len(), full.len(), small.len()], [small.len(), small.len(), small.len(), full.len()]]));
         let parts: Vec<usize> = (0..full.len()).collect();
         par_partitions(ex.rep, parts, |a, l| {
             for b in &enc_full {
-                for c in &enc_small {
+                for c in &enc_full {
                     for d in &enc_small {
                         let bytes = [&[0x84u8][..], &enc_full[*a], b, c, d].concat();
+                        l.state(4);
+                        offer_all_types(ex, "c09.arity4mixed", &bytes, false, l);
+                    }
+                }
+            }
+            for b in &enc_small {
+                for c in &enc_small {
+                    for d in &enc_small {
+                        let bytes = [&[0x84u8][..], b, c, d, &enc_full[*a]].concat();
                         l.state(4);
                         offer_all_types(ex, "c09.arity4mixed", &bytes, false, l);
                     }
